@@ -378,12 +378,21 @@ fn main() {
         }
     };
     let text = std::fs::read_to_string(path).expect("read histories");
+    // a history that does not end costs its 6 s; after 5 of them the point is made and the rest would only add hours
+    let mut hung = 0;
     for (hi, line) in text.lines().enumerate() {
         let ops: Vec<i64> = line.split_whitespace().filter_map(|t| t.parse().ok()).collect();
         println!("@H {}", hi);
         use std::io::Write;
         std::io::stdout().flush().ok();
-        let out = run_child(|| run_history(&ops), Duration::from_secs(20));
+        if hung >= 5 {
+            println!("@E {} skipped", hi);
+            continue;
+        }
+        let out = run_child(|| run_history(&ops), Duration::from_secs(6));
+        if out == sh_harness::forked::Outcome::Timeout {
+            hung += 1;
+        }
         println!("@E {} {}", hi, out.text());
     }
 }
